@@ -402,6 +402,14 @@ func (c *FnCtx) runDefers() {
 
 // doReturn checks postconditions.
 func (c *FnCtx) doReturn(in *ssa.Return) {
+	if len(c.inlineStack) > 0 {
+		var rs []Val
+		for _, r := range in.Results {
+			rs = append(rs, c.val(r))
+		}
+		c.inlineRets = append(c.inlineRets, inlineRet{reach: c.reach, results: rs, heap: c.heap, ghost: c.ghost})
+		return
+	}
 	c.retCount = c.retOrdOf[in]
 	if c.fc == nil {
 		return
